@@ -148,7 +148,32 @@ func shortType(t types.Type) string {
 
 func (p *Prog) lockOpOf(in ssa.Instruction) (LockOp, bool) {
 	cc := callOf(in)
-	if cc == nil || cc.IsInvoke() || len(cc.Args) == 0 {
+	if cc == nil || cc.IsInvoke() {
+		return LockOp{}, false
+	}
+	// lock wrappers: unlock := x.lock() acquires; unlock() / defer unlock() releases
+	if w := cc.StaticCallee(); w != nil {
+		if obj, m, ok := p.lockWrapper(w); ok {
+			_, def := in.(*ssa.Defer)
+			return LockOp{In: in, Method: m, Obj: obj, Deferred: def}, true
+		}
+	} else if _, isB := cc.Value.(*ssa.Builtin); !isB {
+		for _, o := range p.Origins(cc.Value) {
+			if wc, isC := o.(*ssa.Call); isC {
+				if w := wc.Call.StaticCallee(); w != nil {
+					if obj, m, ok := p.lockWrapper(w); ok {
+						rel := "Unlock"
+						if m == "RLock" {
+							rel = "RUnlock"
+						}
+						_, def := in.(*ssa.Defer)
+						return LockOp{In: in, Method: rel, Obj: obj, Deferred: def}, true
+					}
+				}
+			}
+		}
+	}
+	if len(cc.Args) == 0 {
 		return LockOp{}, false
 	}
 	n := calleeName(cc)
@@ -610,4 +635,85 @@ func onlyPassedToModuleCalls(p *Prog, f *ssa.Function) bool {
 		return ok && found
 	}
 	return false
+}
+
+// lockWrapper: fn is a module function that acquires one lock (a plain
+// Lock/RLock it never releases itself) and returns, on every path, the bound
+// Unlock/RUnlock of that same lock: "defer x.lock()()". Returns the abstract
+// lock and the acquiring method.
+func (p *Prog) lockWrapper(fn *ssa.Function) (string, string, bool) {
+	if p.wrapMemo == nil {
+		p.wrapMemo = map[*ssa.Function]*wrapInfo{}
+	}
+	if w, ok := p.wrapMemo[fn]; ok {
+		return w.obj, w.method, w.ok
+	}
+	w := &wrapInfo{}
+	p.wrapMemo[fn] = w // recursion guard: not a wrapper while being examined
+	if !p.InModuleFn(fn) || fn.Signature.Results().Len() != 1 {
+		return "", "", false
+	}
+	if _, isSig := fn.Signature.Results().At(0).Type().Underlying().(*types.Signature); !isSig {
+		return "", "", false
+	}
+	nLock, bad := 0, false
+	obj, method := "", ""
+	funcInstrs(fn, func(in ssa.Instruction) {
+		cc := callOf(in)
+		if cc == nil || cc.IsInvoke() || len(cc.Args) == 0 {
+			return
+		}
+		switch calleeName(cc) {
+		case "(*sync.Mutex).Lock", "(*sync.RWMutex).Lock":
+			nLock++
+			obj, method = p.lockObj(cc.Args[0]), "Lock"
+			if _, d := in.(*ssa.Defer); d {
+				bad = true
+			}
+		case "(*sync.RWMutex).RLock":
+			nLock++
+			obj, method = p.lockObj(cc.Args[0]), "RLock"
+		case "(*sync.Mutex).Unlock", "(*sync.RWMutex).Unlock", "(*sync.RWMutex).RUnlock":
+			bad = true
+		}
+	})
+	if nLock != 1 || bad {
+		return "", "", false
+	}
+	okRet, nRet := true, 0
+	funcInstrs(fn, func(in ssa.Instruction) {
+		rt, isR := in.(*ssa.Return)
+		if !isR || len(rt.Results) != 1 {
+			return
+		}
+		nRet++
+		mc, isMC := retVal(rt, 0).(*ssa.MakeClosure)
+		if !isMC || len(mc.Bindings) != 1 {
+			okRet = false
+			return
+		}
+		bf, _ := mc.Fn.(*ssa.Function)
+		if bf == nil {
+			okRet = false
+			return
+		}
+		want := "Unlock"
+		if method == "RLock" {
+			want = "RUnlock"
+		}
+		target := p.unthunk(bf)
+		if target == nil || target.Name() != want || p.lockObj(mc.Bindings[0]) != obj {
+			okRet = false
+		}
+	})
+	if !okRet || nRet == 0 {
+		return "", "", false
+	}
+	w.obj, w.method, w.ok = obj, method, true
+	return obj, method, true
+}
+
+type wrapInfo struct {
+	obj, method string
+	ok          bool
 }
